@@ -119,6 +119,7 @@ pub fn replay_value(id: &str, ctx: &mut Ctx, r: &serde_json::Value) -> bool {
         "C06" => c06::replay(ctx, r),
         "C07" => c07::replay(ctx, r),
         "C08" => c08::replay(ctx, r),
+        "C09" => c09::replay(ctx, r),
         "C10" => c10::replay(ctx, r),
         "C11" => c11::replay(ctx, r),
         "C12" => c12::replay(ctx, r),
